@@ -270,8 +270,8 @@ class SArr(_np.ndarray):
         return snp.round(self, decimals)
 
     def astype(self, dtype, **kw):
-        if _is_float_dtype(dtype) or dtype is object or dtype is float:
-            return self.copy()
+        if _is_float_dtype(dtype) or _is_complex_dtype(dtype) or dtype is object or dtype is float or dtype is complex:
+            return self.copy()  # exact scalars stand for floats and for complex numbers alike
         return _np.asarray(self.view(_np.ndarray)).astype(dtype, **kw)
 
     def tolist(self):
